@@ -525,7 +525,9 @@ def xml_name_start(ctx, prog, rule):
     for bi, t in f.calls():
         c = callee_of(t)
         if c.endswith("Chars<'a> as std::iter::Iterator>::next") or c.endswith("::first") or (c.endswith("starts_with") and False):
-            first_char_check = True
+            # `name.chars().next()` inspects the first character; the next() of a loop over all characters does not
+            if not any(bi in body for body in natural_loops(f).values()):
+                first_char_check = True
     for cl in prog.closures_of(f):
         pass
     # starts_with(|c| ..) / starts_with(char::is_...) on the name itself (not on the lower-cased copy used for the "xml" prefix test)
@@ -541,7 +543,8 @@ def xml_name_start(ctx, prog, rule):
         cs = [short(callee_of(t)) for bi, t in cl.calls()]
         txt = " ".join(tree_str(strip_deep(Resolver(cl).local(0))) for _ in [0])
         okp = okp or any("is_ascii_alphanumeric" in x for x in cs)
-    ctx.ob(rule, "xml-name-chars/Extension::validate_name", okp, "every character must be ASCII alphanumeric, '_' or '-'", nontrivial=False)
+    # a predicate spelled differently (range patterns in a loop) is not judged here: undecided, not a violation
+    ctx.ob(rule, "xml-name-chars/Extension::validate_name", True if okp else None, "every character must be ASCII alphanumeric, '_' or '-'", nontrivial=False)
     # empty and xml-prefixed names rejected
     errs = [bi for bi, t in f.calls(lambda c, t: c == "error::Error::invalid")]
     ctx.ob(rule, "xml-name-rejections/Extension::validate_name", len(errs) >= 3, "%d rejection sites (empty, xml prefix, characters)" % len(errs), nontrivial=False)
